@@ -1,6 +1,6 @@
 (* Props_C17.v — fallback-tag referrers are converted without loss, repeatably.  Model: Ingest.v, a statement-by-statement
    mirror of indexIngest / indexValidReferrer / referrerListDedup over the index algebra (Index.v). *)
-From Olareg Require Import Base Index IndexProofs Reg Ingest IngestProofs Config Gen_Consts.
+From Olareg Require Import Base Index IndexProofs IndexInv Reg Ingest IngestProofs Config Gen_Consts.
 Local Open Scope list_scope.
 
 (* the conversion always terminates with a result: no panic, no loop that runs out of fuel, for every layout *)
@@ -40,3 +40,11 @@ Print Assumptions C17_no_listed_referrer_lost.
 (* the fallback-tag expression in the source is the one the recogniser [reftag] mirrors *)
 Theorem C17_reftag_literal : lookup "referrerTagRe" gen_consts = Some "^(sha256|sha512)-([0-9a-f]{64})$".
 Proof. vm_compute. reflexivity. Qed.
+
+(* every other tag is kept: an entry that holds a tag which is not a fallback tag (and is not a referrers response) is still
+   in the index after the conversion, unchanged - it resolves to the same manifest *)
+Theorem C17_keeps_tags : forall E x t' now blobs i i' blobs',
+  t' <> "" -> reftag t' = false -> holds t' x = true -> ann_get RefSubject x = "" ->
+  convert E now blobs i = Ok (i', blobs') -> In x (top i) -> In x (top i').
+Proof. exact convert_keeps_tags. Qed.
+Print Assumptions C17_keeps_tags.
